@@ -3,7 +3,6 @@ package main
 import (
 	"fmt"
 	"go/token"
-	"go/types"
 	"regexp"
 	"sort"
 	"strconv"
@@ -540,6 +539,14 @@ func flowsByValue(src, dst ssa.Value) bool {
 				if walk(y, d+1) {
 					return true
 				}
+				// handed to a function of the module: continues from that function's parameter
+				if sc := y.Call.StaticCallee(); sc != nil && len(sc.Blocks) > 0 && sc.Pkg != nil && strings.HasPrefix(sc.Pkg.Pkg.Path(), modPath) {
+					for i, a := range y.Call.Args {
+						if a == v && i < len(sc.Params) && walk(sc.Params[i], d+1) {
+							return true
+						}
+					}
+				}
 			case *ssa.Slice, *ssa.Phi, *ssa.MakeInterface, *ssa.ChangeType, *ssa.Convert, *ssa.Extract:
 				if walk(y.(ssa.Value), d+1) {
 					return true
@@ -562,17 +569,20 @@ func checkC10Framing(r *Report, p *Prog) {
 		// the cipher call on each side
 		var encData, encNonce ssa.Value
 		var encCall *ssa.Call
-		for _, b := range enc.Blocks {
-			for _, in := range b.Instrs {
-				c, ok := in.(*ssa.Call)
-				if !ok {
-					continue
-				}
-				switch calleeName(&c.Call) {
-				case "(crypto/cipher.BlockMode).CryptBlocks":
-					encCall, encData = c, c.Call.Args[1]
-				case "(crypto/cipher.AEAD).Seal":
-					encCall, encData, encNonce = c, c.Call.Args[2], c.Call.Args[1]
+		// (in Encrypt itself or in the unexported helpers it is split into)
+		for _, f := range helperRegion(p, enc, 2) {
+			for _, b := range f.Blocks {
+				for _, in := range b.Instrs {
+					c, ok := in.(*ssa.Call)
+					if !ok {
+						continue
+					}
+					switch calleeName(&c.Call) {
+					case "(crypto/cipher.BlockMode).CryptBlocks":
+						encCall, encData = c, c.Call.Args[1]
+					case "(crypto/cipher.AEAD).Seal":
+						encCall, encData, encNonce = c, c.Call.Args[2], c.Call.Args[1]
+					}
 				}
 			}
 		}
@@ -582,7 +592,7 @@ func checkC10Framing(r *Report, p *Prog) {
 			r.Bad("C10.flow", cons, p.Pos(enc.Pos()), "no cipher call found")
 		} else {
 			r.Check(flowsByValue(plain, encData), "C10.flow", cons, p.InstrPos(encCall), "def-use path from the plaintext parameter to "+fe.AP(encData), "the data operand of the cipher call ("+fe.AP(encData)+") does not depend on the plaintext's content: the output does not encrypt the plaintext")
-			if encNonce != nil {
+			if encNonce != nil && encCall.Parent() == enc {
 				// on every path the nonce operand is a buffer of NonceSize (fresh or the caller's), never the nil parameter
 				okN := true
 				for _, lf := range rootLeaves(encNonce, map[ssa.Value]bool{}) {
@@ -686,6 +696,32 @@ func checkC10Framing(r *Report, p *Prog) {
 					}
 				}
 			}
+			// form 4: the output is collected in a fresh bytes.Buffer whose first Write is the IV
+			{
+				first := map[ssa.Value]*ssa.Call{}
+				for _, b := range f.Blocks {
+					for _, in := range b.Instrs {
+						c, ok := in.(*ssa.Call)
+						if !ok || !calleeIs(c, "(*bytes.Buffer).Write") {
+							continue
+						}
+						buf := c.Call.Args[0]
+						if _, isLocal := buf.(*ssa.Alloc); !isLocal {
+							continue
+						}
+						if prev := first[buf]; prev == nil || c.Block() != prev.Block() && c.Block().Dominates(prev.Block()) {
+							first[buf] = c
+						}
+					}
+				}
+				for _, c := range first {
+					if c.Call.Args[1] == ivOp || fx.AP(c.Call.Args[1]) == fx.AP(ivOp) {
+						if sz := sliceLenAP(fx, ivOp); sz != "" {
+							prepended = append(prepended, sizeSuffix(sz))
+						}
+					}
+				}
+			}
 			// forms 2 and 3: the cipher writes to buf[S:] and the first S bytes of buf are the IV
 			if sl, ok := dst.(*ssa.Slice); ok && sl.Low != nil && sl.High == nil {
 				buf, off := fx.AP(sl.X), fx.AP(sl.Low)
@@ -726,13 +762,16 @@ func checkC10Framing(r *Report, p *Prog) {
 		}
 		r.Check(okF, "C10.framing", c2, p.Pos(dec.Pos()), fmt.Sprintf("strip %v / prepend %v", stripped, prepended), fmt.Sprintf("Decrypt strips a prefix of %v but Encrypt prepends %v: what Encrypt produces is not what Decrypt expects", stripped, prepended))
 		// padding symmetry
-		pads := callsModuleHelper(p, enc, func(f *ssa.Function) bool { return paddingHelperOK(f) && f.Signature.Params().Len() == 2 })
-		strips := callsModuleHelper(p, dec, func(f *ssa.Function) bool {
-			return f.Signature.Params().Len() == 1 && f.Signature.Results().Len() == 2 && types.TypeString(f.Signature.Params().At(0).Type(), nil) == "[]byte"
-		})
-		if !strips {
-			// the stripping written out in Decrypt itself
-			_, strips = padStripBuf(NewAnalysis(p).Ctx(dec))
+		pads := false
+		for _, f := range helperRegion(p, enc, 2) {
+			pads = pads || callsModuleHelper(p, f, func(h *ssa.Function) bool { return paddingHelperOK(h) && h.Signature.Params().Len() == 2 })
+		}
+		// the stripping (x[:len(x)-int(x[len(x)-1])]) in Decrypt itself or in a helper it calls, whatever the helper's shape
+		strips := false
+		for _, f := range helperRegion(p, dec, 2) {
+			if _, ok := padStripBuf(NewAnalysis(p).Ctx(f)); ok {
+				strips = true
+			}
 		}
 		// padding must not depend on the plaintext (Decrypt strips unconditionally)
 		if pads && strips {
@@ -853,6 +892,14 @@ func checkC10Digest(r *Report, p *Prog) {
 				}
 				continue
 			}
+		}
+		// a value chosen on two branches and assigned once (digest := SHA1 / digest = registered; e.DigestMethod = digest)
+		if ph, isPhi := val.(*ssa.Phi); isPhi {
+			for i, e := range ph.Edges {
+				pred := ph.Block().Preds[i]
+				leaves = append(leaves, leaf{B.And(cnd, B.And(fc.Cond(pred), fc.edgeCond(pred, ph.Block()))), fc, e, s1.st})
+			}
+			continue
 		}
 		leaves = append(leaves, leaf{cnd, fc, val, s1.st})
 	}
